@@ -105,7 +105,8 @@ where
                     .periodic_images(position, 3, false)
                     .map(|p| self.shape.transform(&p))
                 {
-                    sum += shape1.energy(&shape2);
+                    // Every pair of periodic images is visited twice, once from each molecule
+                    sum += 0.5 * shape1.energy(&shape2);
                 }
             }
         }
